@@ -240,6 +240,7 @@ struct Th {
     obs: VV,
     relf: VV,
     steps: u64,
+    stale: u32,
     quiet: u32,
     call: Option<CallInfo>,
     tls: Vec<TlsEntry>,
@@ -260,6 +261,7 @@ impl Th {
             obs: VV::default(),
             relf: VV::default(),
             steps: 0,
+            stale: 0,
             quiet: 0,
             call: None,
             tls: Vec::new(),
@@ -735,6 +737,7 @@ impl St {
             hi
         } else {
             self.s_left -= 1;
+            self.threads[me].stale += 1;
             cands[k - 1]
         }
     }
@@ -822,6 +825,7 @@ impl St {
                     if k == 0 {
                     } else if k <= cands.len() {
                         self.s_left -= 1;
+                        self.threads[me].stale += 1;
                         outcome_idx = Some(cands[k - 1]);
                     } else {
                         self.f_left -= 1;
@@ -1345,6 +1349,22 @@ pub fn my_steps() -> u64 {
     }
 }
 
+/// Number of stale reads the calling model thread has performed so far.
+pub fn my_stale_reads() -> u32 {
+    match current_tid() {
+        Some(me) => with(|st| st.threads[me].stale),
+        None => 0,
+    }
+}
+
+/// The calling model thread's vector clock (happens-before knowledge).
+pub fn my_clock() -> VC {
+    match current_tid() {
+        Some(me) => with(|st| st.threads[me].vc),
+        None => VC::default(),
+    }
+}
+
 /// Bracket an API call for the step oracles: while the call runs, the caller may execute at
 /// most `cap` own steps, otherwise `property` is violated.
 pub fn call_begin(name: &'static str, property: &'static str, cap: u64) {
@@ -1642,6 +1662,24 @@ pub fn explore(
         }
         stack = st2;
     }
+}
+
+/// Run the single execution that follows `prefix` and then takes every default; returns its
+/// result and, for every choice point at or beyond the prefix, the number of alternatives.
+pub fn probe(
+    cfg: &Config,
+    prefix: &[u16],
+    body: StdArc<dyn Fn() + Send + Sync>,
+    before: &mut dyn FnMut(),
+    after: &mut dyn FnMut(&mut ExecResult),
+) -> (ExecResult, Vec<u16>) {
+    let _owner = OWNER.lock().unwrap_or_else(|e| e.into_inner());
+    before();
+    let marked: Vec<CP> = prefix.iter().map(|&c| CP { n: u16::MAX, c }).collect();
+    let (mut res, stack) = run_one(cfg, &marked, &body);
+    after(&mut res);
+    let ns = stack.iter().skip(prefix.len()).map(|c| c.n).collect();
+    (res, ns)
 }
 
 /// Run exactly one execution following `choices` (then defaults) and return its result.
